@@ -104,6 +104,18 @@ func fillMessage(s *Sim, md protoreflect.MessageDescriptor, signerField, signer 
 					return protoreflect.ValueOfString(other), true
 				case strings.Contains(ln, "denom") || strings.Contains(ln, "asset"):
 					return protoreflect.ValueOfString(DenomUSDC), true
+				case ln == "intent":
+					// key of a stored airdrop record; one the signer itself is named in, if there is one
+					// (a check against the record's own authority field instead of the chain's is a
+					// plausible slip)
+					best := "1"
+					for _, ad := range s.N0.App.TokenomicsKeeper.GetAllAirdrop(s.Ctx()) {
+						if ad.Authority == signer {
+							return protoreflect.ValueOfString(ad.Intent), true
+						}
+						best = ad.Intent
+					}
+					return protoreflect.ValueOfString(best), true
 				case strings.Contains(ln, "epoch"):
 					return protoreflect.ValueOfString("day"), true
 				case strings.Contains(ln, "validator"):
@@ -221,6 +233,10 @@ func (a *AttackerAgent) Step(s *Sim) {
 		// reflection-generated authority message, attacker's own address in the authority field
 		mi := a.msgs[a.next%len(a.msgs)]
 		a.next++
+		if strings.Contains(mi.URL, "Airdrop") && r.IntN(2) == 0 {
+			attacker = s.W.Users[r.IntN(min(3, len(s.W.Users)))] // the accounts named in genesis airdrop records
+			s.Stats.Probe("authority_message_from_account_named_in_the_record")
+		}
 		msg, err := buildMsg(s, mi, attacker.Addr.String(), s.user(r).Addr.String())
 		if err != nil {
 			s.Harness("C17 generator cannot build %s: %v", mi.URL, err)
